@@ -222,6 +222,17 @@ func VerifC01_Pack() {
 	src := api.GetReplicateMsg(rSrcP, "coll", w.srcColl, pack, "task-7")
 	w.env.h.innerHandleReplicateMsg(false, src)
 	outs := c01Emitted()
+	// drop messages are shared: the MQ hands the same message object to every stream of the
+	// collection, so re-addressing must work on a copy - the object that was read keeps its
+	// source ids (otherwise the other shards' streams lose the message)
+	for _, in := range ins {
+		switch m := in.msg.(type) {
+		case *msgstream.DropPartitionMsg:
+			vAssert(m.CollectionID == w.srcColl && m.PartitionID == w.srcPart, "C01.shared-drop-message-keeps-its-source-ids")
+		case *msgstream.DropCollectionMsg:
+			vAssert(m.CollectionID == w.srcColl, "C01.shared-drop-message-keeps-its-source-ids")
+		}
+	}
 	vAssert(len(outs) <= 1, "C01.one-source-pack-gives-at-most-one-emitted-pack")
 	vAssert(len(w.env.eventChan) == 0, "C01.no-error-event-for-a-registered-collection")
 	collGone := vOr(w.srcDropped, w.infoDropped)
